@@ -17,7 +17,7 @@ func init() {
 			"requires every reachable return of the enclosing function/closure to return an error that is non-nil on that path (Interrupted{}, ctx.Err(), a cell/flag set to one), with a frozen exception " +
 			"table of three service loops whose normal termination is cancellation. C07.loops-observe-ctx: every long-running entry point named by the property reaches such a receive within call depth 3. " +
 			"C07.cli: main registers SIGINT/SIGTERM, the receiving goroutine calls the root cancel function, every sub-command constructor receives the root context, a failed Execute reaches os.Exit(1). " +
-			"C07.tmp-rename: in writeWithTmpFile the rename onto the destination is reachable only through the nil-error edge of the assembly call, the temp file lives in the destination's directory and its removal is deferred.",
+			"C07.status-after-drain: every load of pChunker.err/eof in IndexFromFile lies behind the closed edge of a receive from the same worker's results channel, counted from where the worker is picked. C07.tmp-rename: in writeWithTmpFile the rename onto the destination is reachable only through the nil-error edge of the assembly call, the temp file lives in the destination's directory and its removal is deferred.",
 		NotDecided: "timing of signal delivery; completeness of the work done when success is reported without cancellation; behaviour of the OS on rename.",
 		Rules: []rule{
 			{"C07.done-is-error", "every return reachable from a fired ctx.Done() case returns a non-nil error (3 frozen service-loop exceptions)", 20, c07DoneIsError},
@@ -28,6 +28,7 @@ func init() {
 			{"C07.commands-propagate", "in the commands a failed (interrupted) context-taking operation makes the command fail", 15, c07CommandsPropagate},
 			{"C07.lister-done", "a listing the context can stop is not taken for complete without a look at the context", 1, c07ListerDone},
 			{"C07.retry-observes-ctx", "no retry loop repeats a failed context-taking operation without consulting the context", 1, c07RetryObservesCtx},
+			{"C07.status-after-drain", "a chunking worker's err/eof are read only after its results channel was seen closed", 2, c07StatusAfterDrain},
 			{"C07.tmp-rename", "rename of the temp file only on the nil edge of assembly; temp in the same directory; deferred removal", 3, c07TmpRename},
 		},
 	})
@@ -800,4 +801,70 @@ func c07ListerDone(c *Ctx) {
 		}
 	}
 	c.ok("listers", 0, "%d loop(s) over channels of components that were handed the context's Done channel", n)
+}
+
+// c07StatusAfterDrain: a chunking worker reports how it ended (err, eof) in fields of its
+// pChunker and then closes its results channel; the close is the only synchronisation with
+// the consumer.  IndexFromFile may therefore look at a worker's err/eof only after it has seen
+// that worker's channel closed: every load of these fields lies behind the "closed" edge of a
+// receive from the same worker's results, counted from where the worker value is picked (so the
+// drain of the previous worker does not count for the next one).  Read earlier, a cancellation
+// that the worker has not recorded yet is missed and a partial index is returned as success.
+func c07StatusAfterDrain(c *Ctx) {
+	fn := c.mustFn("IndexFromFile")
+	if fn == nil {
+		return
+	}
+	n := 0
+	for _, f := range withClosures(fn) {
+		instrs(f, func(_ *ssa.BasicBlock, _ int, ins ssa.Instruction) {
+			ld, ok := ins.(*ssa.UnOp)
+			if !ok || ld.Op != token.MUL || ins.Parent() != f {
+				return
+			}
+			fa, ok := ld.X.(*ssa.FieldAddr)
+			if !ok || (fieldOf(fa) != "pChunker.err" && fieldOf(fa) != "pChunker.eof") {
+				return
+			}
+			n++
+			key := fmt.Sprintf("%s:%s-after-drain", fnKey(f), strings.TrimPrefix(fieldOf(fa), "pChunker."))
+			w := fa.X
+			def, isIns := w.(ssa.Instruction)
+			if !isIns {
+				c.bad(key, ld.Pos(), "the worker whose %s is read is not picked inside this function", fieldOf(fa))
+				return
+			}
+			closed := edgesWhere(f, func(iff *ssa.If) (bool, bool) {
+				ex, ok := stripNot(iff.Cond).(*ssa.Extract)
+				if !ok || ex.Index != 1 {
+					return false, false
+				}
+				rcv, ok := ex.Tuple.(*ssa.UnOp)
+				if !ok || rcv.Op != token.ARROW || !rcv.CommaOk {
+					return false, false
+				}
+				// the channel: w.results of the same worker value
+				fromW := false
+				for _, l := range leaves(rcv.X) {
+					if cl, ok := l.(*ssa.UnOp); ok && cl.Op == token.MUL {
+						if cfa, ok := cl.X.(*ssa.FieldAddr); ok && fieldOf(cfa) == "pChunker.results" && cfa.X == w {
+							fromW = true
+						}
+					}
+				}
+				if !fromW {
+					return false, false
+				}
+				_, truth, _ := cmpOf(iff.Cond)
+				return !truth, truth // ok == false: closed
+			})
+			r := reachableFrom(def.Block(), closed)
+			okD := len(closed) > 0 && !r[ld.Block()] && ld.Block() != def.Block()
+			c.verdict(okD, key, ld.Pos(), "read only after this worker's results channel was seen closed",
+				fmt.Sprintf("%s of a chunking worker is read before (or without) its results channel having been drained to the close: the worker may still be running, an interruption or read error it is about to record is missed and a partial index is returned as success", fieldOf(fa)))
+		})
+	}
+	if n == 0 {
+		c.bad("IndexFromFile:status-after-drain", fn.Pos(), "IndexFromFile never looks at a worker's err/eof")
+	}
 }
